@@ -41,19 +41,22 @@ CLAIMED = {
              'The array/scalar clause is decided up to the stated array length.',
         ref='DESIGN.md section 4 C02'),
     'C03': dict(
-        technique='abstract interpretation of from_data/from_model with the least-squares Cp fit as an uninterpreted '
-                  'function, normal-form identities for anchoring and continuity, structural vector-shape evaluation '
-                  'of the fit functions\' return paths',
-        text='Decides the structural part of C03: for all Cp coefficients, reference values and break temperatures, '
-             'the fitted Nasa/Nasa9/Shomate object reproduces HoRT_ref and SoR_ref at T_ref (T_ref in every segment), '
-             'H and S are continuous at every break temperature (NASA-9 with 1-3/4 segments), only the integration-'
-             'constant slots are written, bounds are min/max of the data, from_model samples the reference values '
-             'from the same model at the T_ref it passes, and every return path of the Cp-fit functions has the '
-             'evaluator\'s length, zero integration-constant slots and matching powers. It does NOT decide fit quality '
-             '(tracking of the source, reproduction of same-family polynomials), which depends on polyfit/curve_fit/'
-             'Nelder-Mead on data.',
-        note=STATIC_NOTE + 'The Cp least-squares fit is an uninterpreted function returning zero integration slots '
-             '(that premise is itself checked structurally).',
+        technique='abstract interpretation of from_data/from_model from the public entry points down to np.polyfit / '
+                  'curve_fit, which are uninterpreted functions returning fresh symbols and recording their arguments '
+                  '(data = vectors of unknown length: generic, constant, zero, NaN; masks tag sub-vectors); normal-form '
+                  'identities for fit placement, anchoring and continuity',
+        text='Decides the structural part of C03: for all fitted parameters, reference values and break temperatures, '
+             'the coefficient vectors of the fitted Nasa/Nasa9/Shomate object have the evaluator\'s length, their Cp '
+             'slots come from exactly one least-squares call that was given aligned (same mask) T and Cp data, the '
+             'public Cp evaluator applied to them equals the fitted model (coefficients in the right slots, right '
+             'weight), consecutive segments use complementary masks, constant non-zero data are fitted and all-zero / '
+             'NaN data give zero Cp coefficients; the object reproduces HoRT_ref and SoR_ref at T_ref (T_ref in every '
+             'segment), H and S are continuous at every break temperature (NASA-9 with 1-3/4 segments), anchoring '
+             'leaves the Cp slots alone, bounds are min/max of the data, from_model samples the reference values from '
+             'the same model at the T_ref it passes. It does NOT decide fit quality (tracking of the source), which '
+             'depends on polyfit/curve_fit/Nelder-Mead on data.',
+        note=STATIC_NOTE + 'np.polyfit/curve_fit are uninterpreted (coefficient order and count are their documented '
+             'contract); T_mid is given (the search over candidate break temperatures compares errors on data).',
         ref='DESIGN.md section 4 C03'),
     'C18': dict(
         technique='abstract interpretation over abstract strings: identifiers = symbolic prefix + literal delimiter + '
